@@ -568,6 +568,9 @@ func (x *Exec) applyContract(st *State, fr *Frame, callee *ssa.Function, con *Co
 	env := &Env{st: st, vars: map[string]Val{}, pkg: con.Pkg}
 	for i, p := range callee.Params {
 		env.vars[p.Name()] = args[i]
+		if a := x.P.paramAlias(callee, i); a != "" {
+			env.vars[a] = args[i]
+		}
 	}
 	if x.con != nil && fr != nil && fr.parent == nil {
 		for _, ba := range x.con.BeforeAsserts {
@@ -582,6 +585,10 @@ func (x *Exec) applyContract(st *State, fr *Frame, callee *ssa.Function, con *Co
 			for i, p := range callee.Params {
 				aenv.vars[p.Name()] = args[i]
 				aenv.pinned[p.Name()] = args[i]
+				if a := x.P.paramAlias(callee, i); a != "" {
+					aenv.vars[a] = args[i]
+					aenv.pinned[a] = args[i]
+				}
 			}
 			g := x.evalSpec(ba.C.E, aenv)
 			lbl := ba.C.Label
@@ -610,6 +617,10 @@ func (x *Exec) applyContract(st *State, fr *Frame, callee *ssa.Function, con *Co
 			for i, p := range callee.Params {
 				uenv.vars[p.Name()] = args[i]
 				uenv.pinned[p.Name()] = args[i]
+				if a := x.P.paramAlias(callee, i); a != "" {
+					uenv.vars[a] = args[i]
+					uenv.pinned[a] = args[i]
+				}
 			}
 			x.useLemma(st, uenv, bu.E, x.con.Props)
 		}
